@@ -21,10 +21,10 @@ def tla_set(xs):
 # Access family: C03 (pair-verify machine + session switch) and C01 (gating layer)
 # =====================================================================================================
 
-ACCESS_FINISH = ["genuine", "wrongkey", "stale", "reordered", "replayed", "unknown", "self", "selfkey", "reflect", "crossname", "badseal", "short", "badtlv"]
+ACCESS_FINISH = ["genuine", "wrongkey", "stale", "reordered", "replayed", "unknown", "self", "selfkey", "replayown", "reflect", "crossname", "badseal", "short", "badtlv"]
 ACCESS_OPS = ["GetAcc", "GetChar", "PutVal", "PutSub", "Resource", "AddPair", "RemPair"]
 ACCESS_NOISE = ["psstart", "pswrong", "pszero"]
-ACCESS_GUARDS = ["accessory_is_not_a_controller", "rejected_start_keeps_waiting", "key_looked_up_per_finish", "session_installed_only_without_error", "signature_checked", "authenticate_checks_verified",
+ACCESS_GUARDS = ["accessory_key_fresh_per_exchange", "accessory_is_not_a_controller", "rejected_start_keeps_waiting", "key_looked_up_per_finish", "session_installed_only_without_error", "signature_checked", "authenticate_checks_verified",
                  "authenticate_returns_after_refusal", "pairings_behind_auth", "resource_behind_auth"]
 ACCESS_RULES = {"VerifiedRule": "C03", "ErrorRule": "C03", "PlainStaysPlain": "C03",
                 "GateRule": "C01", "RefusalChangesNothing": "C01", "OnlyVerifiedGetEvents": "C01", "NoCarryOver": "C01"}
@@ -48,7 +48,7 @@ CHECK_DEADLOCK FALSE
 
 def access_slices(prop):
     if prop == 'C03':
-        return dict(finish=ACCESS_FINISH, lens=["ok", "short", "long", "empty"], ops=["GetAcc"], noise=[])
+        return dict(finish=ACCESS_FINISH, lens=["ok", "sameA", "short", "long", "empty"], ops=["GetAcc"], noise=[])
     return dict(finish=["genuine", "wrongkey", "self", "selfkey", "reflect", "crossname"], lens=["ok"], ops=ACCESS_OPS, noise=ACCESS_NOISE)
 
 
@@ -74,7 +74,7 @@ def access_generate(run):
     # attack words: shortest behaviours that break a property once a named guard is missing
     attacks = []
     for g in ACCESS_GUARDS:
-        a = run.generate('AccessGen', cfgtext=access_cfg(["e1", "e2"], ["l1"], ACCESS_FINISH, ["ok", "short"], ACCESS_OPS, ["pszero"], weak=[g],
+        a = run.generate('AccessGen', cfgtext=access_cfg(["e1", "e2"], ["l1"], ACCESS_FINISH, ["ok", "sameA", "short"], ACCESS_OPS, ["pszero"], weak=[g],
                          tail='INIT GInit\nNEXT GNext\nINVARIANT NoAttack\nVIEW AttackView'), expect_violation=True, timeout=600)
         if not a:
             raise ToolTrouble('no attack word for guard %s: the guard is vacuous in Access.tla' % g)
@@ -82,7 +82,7 @@ def access_generate(run):
     # simulation: long random words over two key-less connections and the full alphabet
     depth = 12 if thorough else 8
     num = 4000 if thorough else 300
-    sim = run.generate('AccessGen', cfgtext=access_cfg(["e1", "e2"], ["l1"], ACCESS_FINISH, ["ok", "short", "long", "empty"], ACCESS_OPS, ACCESS_NOISE,
+    sim = run.generate('AccessGen', cfgtext=access_cfg(["e1", "e2"], ["l1"], ACCESS_FINISH, ["ok", "sameA", "short", "long", "empty"], ACCESS_OPS, ACCESS_NOISE,
                        tail='INIT GInit\nNEXT GNext\nINVARIANT EmitSim', consts='SimLen = %d' % depth),
                        simulate='num=%d' % num, timeout=900, heap='2g', depth=depth + 1)
     groups.append(('edge', edge))
